@@ -44,6 +44,7 @@ def _probe_points():
 
 
 def _eval_points():
+    """values AND gradients (d sum(out) / d operands) of every probe"""
     c06 = C()
     out = {}
     with warnings.catch_warnings():
@@ -54,7 +55,37 @@ def _eval_points():
                 out[label] = [c06._plain(o).detach().clone() for o in c06._flatten_result(r)]
             except Exception as e:
                 out[label] = e
+        for label, f, leaves in _grad_points():
+            try:
+                r = c06._plain(f())
+                if not r.requires_grad:
+                    continue
+                gs = torch.autograd.grad(torch.nan_to_num(r).sum(), leaves, allow_unused=True)
+                out["gradient of " + label] = [torch.zeros(()) if g is None else g.detach().clone() for g in gs]
+            except Exception as e:
+                out["gradient of " + label] = e
     return out
+
+
+def _grad_points():
+    P = pp()
+    c06 = C()
+    E = []
+    for lt in LTYPES:
+        for dt in ("float64", "float32"):
+            for op, apis, _ in c06.unary_ops(lt):
+                if op in ("tensor",):
+                    continue
+                x = c06.POOLS.get(lt, dt)[:3].clone().requires_grad_(True)
+                E.append((f"{lt}.{op} [{dt}]", (lambda fn, x, lt: lambda: fn(P.LieTensor(x, ltype=ltype_of(lt))))(apis[sorted(apis)[0]], x, lt), [x]))
+    for sk in c06.SITE_KEYS:
+        spec = c06.SITES[sk]
+        for dt in ("float64", "float32"):
+            x = c06.POOLS.get(spec["px"], dt)[:3].clone().requires_grad_(True)
+            y = c06.POOLS.get(spec["py"], dt)[3:6].clone().requires_grad_(True)
+            E.append((f"{sk[0]}.{sk[1]} [{dt}]", (lambda sk, spec, x, y: lambda: c06.site_call(sk, sorted(spec["apis"])[0], P.LieTensor(x, ltype=ltype_of(spec["px"])),
+                                                                                           c06.wrap_second(sk, "lie", y)))(sk, spec, x, y), [x, y]))
+    return E
 
 
 def _degenerate_everything(ctx):
@@ -197,6 +228,32 @@ def stream_dtypes(ctx, names=None):
                                     break
                         finally:
                             DT.pop(dtn, None)
+            # the class's own container operations on every dtype
+            import pickle
+            for lt in LTYPES:
+                for dtn, dtt in EXTRA_DTYPES.items():
+                    t0 = (torch.arange(2 * DIM[lt], dtype=torch.float64) % 5).reshape(2, DIM[lt]).to(dtt)
+                    X = P.LieTensor(t0.clone(), ltype=ltype_of(lt))
+                    ops = {"LieTensor(t, ltype=)": lambda: X, "tensor()": lambda: X.tensor(), "new_empty": lambda: X.new_empty((3, DIM[lt])).fill_(1), "deepcopy": lambda: copy.deepcopy(X),
+                           "copy.copy": lambda: copy.copy(X), "pickle": lambda: pickle.loads(pickle.dumps(X)), "lview": lambda: X.lview(2, 1), "new_empty(dtype=)": lambda: X.new_empty((1, DIM[lt]), dtype=torch.int16).fill_(1),
+                           "getitem": lambda: X[0], "new_tensor-free clone": lambda: X.clone(), "identity_like(dtype=own)": (lambda: P.identity_like(X, dtype=dtt)) if dtt.is_floating_point else None}
+                    for nm, f in ops.items():
+                        if f is None:
+                            continue
+                        case = {"kind": "dtypes", "what": nm, "lt": lt, "dtype": dtn}
+                        ctx.count("dtypes.container")
+                        try:
+                            r = f()
+                        except Exception as e:
+                            if nm == "identity_like(dtype=own)":
+                                continue
+                            ctx.fail(case, f"raises: {nm} on a {dtn} {lt} LieTensor raises {type(e).__name__}: {str(e)[:80]}")
+                            continue
+                        want_dt = torch.int16 if nm == "new_empty(dtype=)" else dtt
+                        if r.dtype != want_dt or (nm != "tensor()" and getattr(r, "ltype", None) is not ltype_of(lt)):
+                            ctx.fail(case, f"dtype: {nm} on a {dtn} {lt} LieTensor returns dtype {r.dtype} / ltype {ltype_name(getattr(r, 'ltype', None))} (expected {want_dt}, {lt})")
+                        elif nm in ("deepcopy", "copy.copy", "pickle", "tensor()", "new_tensor-free clone") and not torch.equal(c06._plain(r), t0):
+                            ctx.fail(case, f"dtype: {nm} on a {dtn} {lt} LieTensor changes the values")
             # constructors and *_like with every float dtype; integer LieTensors as containers
             for lt in LTYPES:
                 for dtn in ("float16", "bfloat16", "float32", "float64"):
@@ -296,6 +353,7 @@ def stream_callbacks(ctx):
                 ctx.count("callbacks")
                 q = c06._lie(c06.POOLS.get(lt, "float64")[:2].clone(), lt)
                 x = c06.POOLS.get("p3", "float64")[:2].clone()
+                x[0, 0], x[1, 2], x[1, 1] = float("inf"), float("-inf"), 3e7          # what a callback returns is the user's: also non-finite / huge entries stay
                 q0, x0 = q.tensor().clone(), x.clone()
                 try:
                     if pair is None:
@@ -347,7 +405,7 @@ def stream_propsubclass(ctx):
             xb = c06.POOLS.get(lt, "float64")[:4].clone()
             calls = [(op, apis[sorted(apis)[0]]) for op, apis, _ in c06.unary_ops(lt)]
             calls += [("clone", lambda X: X.clone()), ("getitem", lambda X: X[1:3]), ("cat", lambda X: torch.cat([X, X])), ("view", lambda X: X.view(2, 2, -1)),
-                      ("new_empty", lambda X: torch.zeros_like(X.new_empty((2, DIM[lt])))), ("deepcopy", lambda X: copy.deepcopy(X)), ("lview", lambda X: X.lview(2, 2)),
+                      ("new_empty", lambda X: X.new_empty((2, DIM[lt])).fill_(0)), ("new_empty(dtype=)", lambda X: X.new_empty((1, DIM[lt]), dtype=torch.float32).fill_(1)), ("deepcopy", lambda X: copy.deepcopy(X)), ("lview", lambda X: X.lview(2, 2)),
                       ("repr", lambda X: torch.tensor([float(type(X.ltype).__name__ in repr(X))])), ("identity_like", lambda X: P.identity_like(X, dtype=X.dtype)),
                       ("Parameter", lambda X: P.Parameter(X).detach())]
             for sk in c06.SITE_KEYS:
